@@ -16,13 +16,13 @@ from acsa.selftest import Variant, build_overlay, patch_edits  # noqa: E402
 def main():
     patch = sys.argv[1]
     verbose = "-v" in sys.argv
-    base = Repo("/repo")
+    base = Repo(os.environ.get("ACSA_REPO", "/repo"))
     ov = build_overlay(base, Variant("x", patch_edits(open(patch).read())))
     if ov is None:
         print("patch does not apply")
         return
     refs = equiv.load_reference_sources()
-    full = Repo("/repo", overlay=ov).equiv_stats  # also sets the purity tables
+    full = Repo(os.environ.get("ACSA_REPO", "/repo"), overlay=ov).equiv_stats  # also sets the purity tables
     print("full run: proved", len(full.get("proved_equivalent", [])), "of", len(full.get("changed", [])), full.get("errors", ""))
     for rel, src in ov.items():
         tree = ast.parse(src)
